@@ -1881,4 +1881,19 @@ def constructScenario (allow : Bool) : Nat × Option Level × Nat × Nat :=
     [⟨0, 1, .structural, false, .low⟩, ⟨1, 3, .structural, false, .normal⟩, ⟨0, 2, .structural, false, .high⟩]
   ((valueOf g 0).getD 0, findLevel g.expr 0, g.genes.length, g.log.length)
 
+/-- `get_statistics()` of parent and child after the fixed history of the evaluated stats table (callback absent, or
+    answering `ans` to everything): (total_genes, generation, mutations_count, approved_mutations, SILENCED states;
+    child's generation, mutations_count, approved_mutations) -/
+def statsScenario (allow : Bool) (ans : Option Ans) : List Nat :=
+  let env := gateEnv ans
+  let st := run env Store.empty
+    [.new allow (ans.map fun _ => 0) false [⟨0, 1, .structural, false, .normal⟩, ⟨1, 3, .structural, true, .normal⟩],
+     .mutate 0 0 7, .mutate 0 1 9, .rollback 0 0, .add 0 ⟨0, 5, .structural, false, .normal⟩, .rollback 0 0,
+     .setExpr 0 1 .silenced, .replicate 0 [(0, 8)] true]
+  match st.genomes[0]?, st.genomes[1]? with
+  | some g, some c =>
+    [(stats g).total, (stats g).generation, (stats g).mutations, (stats g).approved, (stats g).byExpr.headD 0,
+     (stats c).generation, (stats c).mutations, (stats c).approved]
+  | _, _ => []
+
 end Operon.Genome
